@@ -78,7 +78,12 @@ def check_point(spec, c0, x, tol_cons=1e-6, tol_lnq=1e-5):
     # conservation of every element and of charge
     comps = sorted({z for n in names for z in SPECIES[n]})
     solutes = [abs(c) for n, c in zip(names, c0) if n != "H2O"] or [abs(c) for c in c0]
-    floor = 1e-10 * max(solutes + [1e-300])  # an element that is absent may come back as numerical dust
+    # The delegated solver works to tol=1e-8 relative to the magnitude of the whole unknown vector, so a component whose
+    # total is orders of magnitude below the dominant solute (a trace element, or charge = a difference of large terms)
+    # carries an absolute error set by the dominant scale.  Conservation is therefore demanded to 1e-6 of the component's
+    # own scale OR 1e-6 of the largest solute concentration, whichever is larger (recorded change, DESIGN.md 9.3:
+    # the earlier floor of 1e-10 flagged errors of 8e-11 M in a 4e-4 M system during a 25-minute thorough run).
+    floor = 1e-6 * max(solutes + [1e-300])
     for z in comps:
         tot0 = sum(SPECIES[n].get(z, 0) * c for n, c in zip(names, c0))
         tot1 = sum(SPECIES[n].get(z, 0) * c for n, c in zip(names, xs))
